@@ -22,9 +22,13 @@ type Mutant struct {
 	Note     string   `json:"note"`
 }
 
-func loadMutants(verif string) ([]Mutant, error) {
+func loadMutants(verif string, pat ...string) ([]Mutant, error) {
 	var all []Mutant
-	files, _ := filepath.Glob(filepath.Join(verif, "selftest", "*.json"))
+	glob := "*.json"
+	if len(pat) > 0 && pat[0] != "" {
+		glob = pat[0] + ".json"
+	}
+	files, _ := filepath.Glob(filepath.Join(verif, "selftest", glob))
 	for _, f := range files {
 		data, err := os.ReadFile(f)
 		if err != nil {
@@ -48,8 +52,11 @@ func cmdSelftest(args []string) int {
 	only := fs.String("name", "", "only mutants whose name contains this")
 	repo := fs.String("repo", "/repo", "")
 	verif := fs.String("verif", "/verif", "")
+	file := fs.String("file", "", "only mutants from this corpus file (base name)")
 	fs.Parse(args)
-	ms, err := loadMutants(*verif)
+	os.Setenv("GOVC_NO_RETRY", "1") // mutants are expected to fail: no second chance needed
+	os.Setenv("GOVC_NO_REPLAY", "1")
+	ms, err := loadMutants(*verif, *file)
 	if err != nil {
 		fmt.Fprintln(os.Stderr, err)
 		return 2
